@@ -5,13 +5,13 @@ go 1.25
 toolchain go1.25.5
 
 require (
+	github.com/bitly/go-simplejson v0.5.1
 	github.com/ozontech/file.d v0.0.0
 	github.com/ozontech/insane-json v0.1.9
 )
 
 require (
 	github.com/beorn7/perks v1.0.1 // indirect
-	github.com/bitly/go-simplejson v0.5.1 // indirect
 	github.com/bmatcuk/doublestar/v4 v4.8.1 // indirect
 	github.com/bufbuild/protocompile v0.13.0 // indirect
 	github.com/cenkalti/backoff/v4 v4.3.0 // indirect
